@@ -27,5 +27,7 @@ PY
     if echo "$out" | grep -q "VIOLATION property=$p"; then hit="$hit $p"; break; fi
     if echo "$out" | grep -q "PATCH DOES NOT APPLY"; then hit="PATCH-DOES-NOT-APPLY"; break; fi
   done
-  if [ -z "$hit" ]; then echo "MISSED  $name (tried: $props)"; else echo "caught  $name by$hit"; fi
+  det=$(python3 -c "import json;print(json.load(open('$d/meta.json')).get('detection',''))")
+  if [ -z "$hit" ] && { [ "$det" = "not-reported" ] || [ "$det" = "inconclusive" ]; }; then echo "known-unreported  $name ($det, see meta.json)";
+  elif [ -z "$hit" ]; then echo "MISSED  $name (tried: $props)"; else echo "caught  $name by$hit"; fi
 done
